@@ -31,6 +31,7 @@ HEADS = [
     ("L.fillna(0).abs()[L.a > 0]" if False else "L.fillna(0).abs()", "fused-chain", True),
     ("L.index", "index", True),
     ("L.a.sum()", "scalar", True),
+    ("(L.a.sum() + 1) * 2", "scalar-expr", True),
     ("L.dropna(subset=['b'])", "dropna", True),
     ("dx.concat([L, L])", "concat", True),
     ("dx.concat([L[['a', 'c']], R])", "concat-other", True),
@@ -61,7 +62,13 @@ RESTS = [
     ("Z.count()", "count"),
     ("Z.to_frame()", "to_frame"),
     ("(Z * 2).max()", "mul-max"),
+    # the re-imported / optimised piece used together with the original source (broadcast or partition-wise)
+    ("L.c + Z", "mix-add"),
+    ("(L.c + Z) * 3", "mix-add-mul"),
+    ("L[L.c > Z]", "mix-filter"),
 ]
+
+MIX_HEADS = ("scalar", "scalar-expr", "series", "series-binop", "source", "elemwise")
 
 
 def configs(tier, cuts=("persist", "delayed", "legacy", "inplace")):
@@ -70,14 +77,16 @@ def configs(tier, cuts=("persist", "delayed", "legacy", "inplace")):
     for nrows, nparts in layouts:
         for htext, htag, hordered in HEADS:
             for rtext, rtag in RESTS:
+                if rtag.startswith("mix-") and (htag not in MIX_HEADS or (rtag == "mix-filter" and not htag.startswith("scalar"))):
+                    continue
                 if htag == "set_index" and rtag == "head":
                     # head() reads the first partition(s) only (documented); an optimised / re-imported set_index result keeps its
                     # possibly empty first partition, while the uncut query turns head-of-set_index into a global n-smallest
                     continue
                 for cut in cuts:
-                    if cut == "inplace" and (rtag in ("merge", "to_frame") or htag in ("index", "scalar")):
+                    if cut == "inplace" and (rtag in ("merge", "to_frame") or htag in ("index", "scalar", "scalar-expr")):
                         continue
-                    out.append(dict(head=htext, htag=htag, rest=rtext, rtag=rtag, cut=cut, nrows=nrows, nparts=nparts, ordered=hordered and rtag in ("identity", "add", "filter", "filter-series", "head", "to_frame")))
+                    out.append(dict(head=htext, htag=htag, rest=rtext, rtag=rtag, cut=cut, nrows=nrows, nparts=nparts, ordered=hordered and rtag in ("identity", "add", "filter", "filter-series", "head", "to_frame", "mix-add", "mix-add-mul", "mix-filter")))
     return out
 
 
